@@ -1,7 +1,7 @@
 (* Obligations re-checked on every run against the shapes regenerated from /repo. *)
 From Coq Require Import String.
 From Coq Require Import List NArith Bool.
-From Sia Require Import Prim.Tok Codec.Schema Codec.Shape Codec.Irregular Gen.Schemas Codec.Golden.
+From Sia Require Import Prim.Tok Codec.Schema Codec.Shape Codec.Canonical Codec.PolicyWire Codec.Tagged Codec.Irregular Gen.Schemas Codec.Wire Codec.Golden.
 Import ListNotations.
 Open Scope string_scope.
 
@@ -82,17 +82,62 @@ Proof.
   apply schema_eqb_eq in A. subst s'. exists s. repeat split; auto. now apply wfb_wf.
 Qed.
 
+(* the layouts the hand-written union and masked record are assembled from exist, and decoder = encoder for them *)
+Definition part_ok (ed : shape * shape) : bool :=
+  match to_schema (fst ed), to_schema (snd ed) with Some a, Some b => schema_eqb a b | _, _ => false end.
+Lemma wire_parts_pinned : forallb part_ok [
+  (enc_types_V2FileContractElement, dec_types_V2FileContractElement); (enc_types_V2FileContractRenewal, dec_types_V2FileContractRenewal);
+  (enc_types_V2StorageProof, dec_types_V2StorageProof); (enc_types_V2FileContractExpiration, dec_types_V2FileContractExpiration);
+  (HSlice enc_types_V2SiacoinInput, HSlice dec_types_V2SiacoinInput); (HSlice enc_types_V2SiacoinOutput, HSlice dec_types_V2SiacoinOutput);
+  (HSlice enc_types_V2SiafundInput, HSlice dec_types_V2SiafundInput); (HSlice enc_types_V2SiafundOutput, HSlice dec_types_V2SiafundOutput);
+  (HSlice enc_types_V2FileContract, HSlice dec_types_V2FileContract); (HSlice enc_types_V2FileContractRevision, HSlice dec_types_V2FileContractRevision);
+  (HSlice enc_types_V2FileContractResolution, HSlice dec_types_V2FileContractResolution); (HSlice enc_types_Attestation, HSlice dec_types_Attestation);
+  (HBytes, HBytes); (enc_types_Address, dec_types_Address); (enc_types_V2Currency, dec_types_V2Currency)] = true.
+Proof. vm_compute. reflexivity. Qed.
+(* the unlock-conditions leaf of the policy codec is the generated UnlockConditions layout *)
+Lemma uc_schema_pinned : to_schema enc_types_UnlockConditions = Some uc_schema /\ to_schema dec_types_UnlockConditions = Some uc_schema.
+Proof. vm_compute. split; reflexivity. Qed.
+
+(* Every generated type, with all hand-modelled fragments (V1Currency, V1SiafundOutput, SpendPolicy,
+   V2FileContractResolution, V2Transaction) recognised: *)
 Theorem roundtrip_all n e d : In (n, e, d) gen_types ->
   exists s, to_schema e = Some s /\ to_schema d = Some s /\
-    forall v rest, wt rvalid s v -> dec recog s (enc s v ++ rest)%list = Some (v, rest).
+    forall v rest, wt rvalid_all s v -> dec recog_all s (enc s v ++ rest)%list = Some (v, rest).
 Proof.
   intros Hin. destruct (in_types_wf _ _ _ Hin) as (s & A & B & W). exists s. repeat split; auto.
-  intros v rest Hv. apply (roundtrip recog rvalid recog_ok rvalid_nonempty s W v rest Hv).
+  intros v rest Hv. apply (roundtrip recog_all rvalid_all recog_all_ok rvalid_all_nonempty s W v rest Hv).
 Qed.
 
 Theorem injective_all n e d s : In (n, e, d) gen_types -> to_schema e = Some s ->
-  forall v w, wt rvalid s v -> wt rvalid s w -> enc s v = enc s w -> v = w.
+  forall v w, wt rvalid_all s v -> wt rvalid_all s w -> enc s v = enc s w -> v = w.
 Proof.
   intros Hin E v w. destruct (in_types_wf _ _ _ Hin) as (s' & A & _ & W). rewrite E in A. inversion A; subst s'.
-  apply (enc_injective recog rvalid recog_ok rvalid_nonempty s v w W).
+  apply (enc_injective recog_all rvalid_all recog_all_ok rvalid_all_nonempty s v w W).
 Qed.
+
+(* no proper prefix of an encoding is accepted: a truncated encoding is an error, never a partial value *)
+Theorem truncation_all n e d : In (n, e, d) gen_types ->
+  exists s, to_schema e = Some s /\ to_schema d = Some s /\
+    forall v p q, wt rvalid_all s v -> enc s v = (p ++ q)%list -> q <> [] -> dec recog_all s p = None.
+Proof.
+  intros Hin. destruct (in_types_wf _ _ _ Hin) as (s & A & B & W). exists s. split; [exact A|]. split; [exact B|].
+  intros v p q Wt E NE. apply (prefix_rejected recog_all recog_all_extend s (enc s v) v p q); auto.
+  pose proof (roundtrip recog_all rvalid_all recog_all_ok rvalid_all_nonempty s W v [] Wt) as R. rewrite app_nil_r in R. exact R.
+Qed.
+
+(* decoder canonicity: for every generated type that does not contain a V2Transaction, whatever the decoder accepts is
+   the encoding of the value it returns followed by the bytes it left, so no value has a second accepted encoding
+   (the V2Transaction decoder is not canonical: Wire.txn_noncanonical_accepted) *)
+Theorem canonical_all n e d : In (n, e, d) gen_types ->
+  exists s, to_schema e = Some s /\ to_schema d = Some s /\
+    (mentions txn_name s = false ->
+     forall b v r, byte_okl b -> dec recog_all s b = Some (v, r) -> b = (enc s v ++ r)%list /\ wt rvalid_all s v).
+Proof.
+  intros Hin. destruct (in_types_wf _ _ _ Hin) as (s & A & B & W). exists s. split; [exact A|]. split; [exact B|].
+  intros M b v r O D. unfold recog_all in D. rewrite (dec_add_irrelevant _ _ _ s M) in D.
+  destruct (dec_canonical recog1 rvalid1 recog1_sound s b v r O D) as [E Wt]. split; [exact E|].
+  apply wt_add_irrelevant; assumption.
+Qed.
+(* how many generated types that covers *)
+Definition canonical_types : list string :=
+  flat_map (fun t => let '(n, e, _) := t in match to_schema e with Some s => if mentions txn_name s then [] else [n] | None => [] end) gen_types.
